@@ -20,6 +20,54 @@ use fastrace::verif::{self, Point};
 
 pub const COLLECTOR: usize = 1_000_000;
 
+/// Which real-API route realises a model call is a function of the handle number in the log
+/// line (so that a logged history replays identically):
+///  * a local span whose handle is 2 mod 4 is recorded by polling a persistent
+///    `enter_on_poll` future (slot (l/4) mod 2 of the thread) instead of
+///    `LocalSpan::enter_with_local_parent`; the poll ends at the matching `lexit`;
+///  * an object whose handle is 3 mod 5 is released by unwinding (a panic that is caught
+///    right outside) instead of a plain drop.
+pub fn eop_route(l: u64) -> Option<usize> {
+    if l % 4 == 2 { Some(((l / 4) % 2) as usize) } else { None }
+}
+pub fn unwind_route(id: u64) -> bool {
+    id % 5 == 3
+}
+
+/// releases x inside a destructor that runs during unwinding; a panic of x's own destructor is
+/// caught there (it must not meet the unwinding in flight) and re-raised afterwards, so that it
+/// is observed exactly like a panic of the plain drop
+struct Rel<T> {
+    x: Option<T>,
+    panicked: Rc<Cell<bool>>,
+}
+impl<T> Drop for Rel<T> {
+    fn drop(&mut self) {
+        let x = self.x.take();
+        if catch_unwind(AssertUnwindSafe(move || drop(x))).is_err() {
+            self.panicked.set(true);
+        }
+    }
+}
+
+fn release<T>(id: u64, x: T) {
+    if unwind_route(id) {
+        // dropped while the thread is panicking (std::thread::panicking() is true in the
+        // destructor); resume_unwind does not run the panic hook
+        let flag = Rc::new(Cell::new(false));
+        let r = Rel { x: Some(x), panicked: flag.clone() };
+        let _ = catch_unwind(AssertUnwindSafe(move || {
+            let _r = r;
+            std::panic::resume_unwind(Box::new(0u8));
+        }));
+        if flag.get() {
+            panic!("harness: the destructor panicked (released during unwinding)");
+        }
+    } else {
+        drop(x);
+    }
+}
+
 thread_local! {
     static WID: Cell<usize> = const { Cell::new(usize::MAX) };
     static WCTX: RefCell<Option<Rc<WCtx>>> = const { RefCell::new(None) };
@@ -221,7 +269,7 @@ impl Future for ScriptFut {
     type Output = ();
     fn poll(self: Pin<&mut Self>, _cx: &mut Context<'_>) -> Poll<()> {
         let t = nested_from_poll();
-        if res_of(&t) == "pending" { Poll::Pending } else { Poll::Ready(()) }
+        if res_of(&t) == "pending" || t.first().map(|h| h == "lexit").unwrap_or(false) { Poll::Pending } else { Poll::Ready(()) }
     }
 }
 
@@ -271,6 +319,8 @@ pub struct Tables {
     pub spans: Mutex<HashMap<u64, Arc<Span>>>,
     pub lsets: Mutex<HashMap<u64, LocalSpans>>,
     pub adapters: Mutex<HashMap<u64, Adapter>>,
+    /// events built ahead of their use (Event::new at an earlier call), by name symbol
+    pub ev_stash: Mutex<HashMap<u64, Event>>,
     pub interner: Interner,
 }
 impl Tables {
@@ -279,6 +329,7 @@ impl Tables {
             spans: Mutex::new(HashMap::new()),
             lsets: Mutex::new(HashMap::new()),
             adapters: Mutex::new(HashMap::new()),
+            ev_stash: Mutex::new(HashMap::new()),
             interner: Interner::new(),
         })
     }
@@ -297,6 +348,8 @@ pub struct WCtx {
     rx: mpsc::Receiver<Vec<String>>,
     scoped: RefCell<Vec<Scoped>>,
     depth: Cell<usize>,
+    eops: RefCell<Vec<Option<(String, Pin<Box<fastrace::future::EnterOnPoll<ScriptFut>>>)>>>,
+    eop_open: RefCell<Vec<u64>>,
 }
 
 fn pu(s: &str) -> u64 {
@@ -337,6 +390,9 @@ impl WCtx {
             if nested && (head == "cret" || head == "polle") {
                 return toks;
             }
+            if nested && head == "lexit" && self.eop_open.borrow().last().copied() == Some(pu(&toks[1])) {
+                return toks;
+            }
             let r = catch_unwind(AssertUnwindSafe(|| self.exec(&toks)));
             let reply = match r {
                 Ok(s) => s,
@@ -374,6 +430,19 @@ impl WCtx {
             None => "c none".to_string(),
             Some(c) => format!("c {:x} {:x} {}", c.trace_id.0, c.span_id.0, c.sampled as u8),
         }
+    }
+
+    /// the event named by symbol n: taken from the stash when it was built ahead (at an earlier
+    /// event call), built now otherwise; then events for the next symbols are built ahead
+    fn event(&self, n: u64) -> Event {
+        let mut st = self.tables.ev_stash.lock().unwrap();
+        let ev = st.remove(&n).unwrap_or_else(|| Event::new(self.tables.interner.s(n)));
+        if n > 0 {
+            for k in n + 1..n + 24 {
+                st.entry(k).or_insert_with(|| Event::new(self.tables.interner.s(k)));
+            }
+        }
+        ev
     }
 
     fn pop_scoped(&self) -> Scoped {
@@ -422,19 +491,37 @@ impl WCtx {
             }
             "dropg" => {
                 match self.pop_scoped() {
-                    Scoped::Guard(g, x) if g == pu(&t[1]) => drop(x),
+                    Scoped::Guard(g, x) if g == pu(&t[1]) => release(g, x),
                     _ => panic!("harness: dropg out of order"),
                 }
                 u()
             }
             "lenter" => {
+                let id = pu(&t[1]);
+                if let Some(slot) = eop_route(id) {
+                    // one poll of a persistent enter_on_poll future; ScriptFut::poll serves the
+                    // nested commands until the matching lexit arrives
+                    let name = self.sym(&t[2]);
+                    let taken = self.eops.borrow_mut()[slot].take();
+                    let mut fut = match taken {
+                        Some((n, f)) if n == name => f,
+                        _ => Box::pin(fastrace::future::FutureExt::enter_on_poll(ScriptFut, name.clone())),
+                    };
+                    self.eop_open.borrow_mut().push(id);
+                    let waker = Waker::from(Arc::new(NoopWake));
+                    let mut cx = Context::from_waker(&waker);
+                    let _ = fut.as_mut().poll(&mut cx);
+                    self.eop_open.borrow_mut().pop();
+                    self.eops.borrow_mut()[slot] = Some((name, fut));
+                    return u();
+                }
                 let l = LocalSpan::enter_with_local_parent(self.sym(&t[2]));
-                self.scoped.borrow_mut().push(Scoped::Local(pu(&t[1]), Some(l)));
+                self.scoped.borrow_mut().push(Scoped::Local(id, Some(l)));
                 u()
             }
             "lexit" => {
                 match self.pop_scoped() {
-                    Scoped::Local(l, x) if l == pu(&t[1]) => drop(x),
+                    Scoped::Local(l, x) if l == pu(&t[1]) => release(l, x),
                     _ => panic!("harness: lexit out of order"),
                 }
                 u()
@@ -473,7 +560,7 @@ impl WCtx {
                 if inv { u() } else { "b0".to_string() }
             }
             "laddev" => {
-                let mut ev = Event::new(self.sym(&t[1]));
+                let mut ev = self.event(pu(&t[1]));
                 if t[2] != "-" {
                     let ps = self.props(&t[2..]);
                     ev = ev.with_properties(|| ps);
@@ -506,7 +593,7 @@ impl WCtx {
             }
             "lcdrop" => {
                 match self.pop_scoped() {
-                    Scoped::Coll(c, x) if c == pu(&t[1]) => drop(x),
+                    Scoped::Coll(c, x) if c == pu(&t[1]) => release(c, x),
                     _ => panic!("harness: lcdrop out of order"),
                 }
                 u()
@@ -548,7 +635,7 @@ impl WCtx {
             }
             "saddev" => {
                 let p = self.span(&t[1]);
-                let mut ev = Event::new(self.sym(&t[2]));
+                let mut ev = self.event(pu(&t[2]));
                 if t[3] != "-" {
                     let ps = self.props(&t[3..]);
                     ev = ev.with_properties(|| ps);
@@ -565,7 +652,7 @@ impl WCtx {
             }
             "drops" => {
                 let s = self.take_span(&t[1]);
-                drop(s);
+                release(pu(&t[1]), s);
                 u()
             }
             "elapsed" => {
@@ -623,7 +710,7 @@ impl WCtx {
             }
             "addrop" => {
                 let ad = self.tables.adapters.lock().unwrap().remove(&pu(&t[1])).expect("adapter");
-                drop(ad);
+                release(pu(&t[1]), ad);
                 u()
             }
             other => panic!("harness: unknown call {}", other),
@@ -713,6 +800,8 @@ impl Orch {
                     rx,
                     scoped: RefCell::new(Vec::new()),
                     depth: Cell::new(0),
+                    eops: RefCell::new(vec![None, None]),
+                    eop_open: RefCell::new(Vec::new()),
                 });
                 WCTX.with(|c| *c.borrow_mut() = Some(ctx.clone()));
                 sh.post(t, St::Idle, None);
